@@ -426,8 +426,13 @@ impl RefCountTable {
 	}
 
 	pub fn drop_file(self) -> Result<()> {
+		// The file is created by the first entry enacted into the table: a table that never
+		// got one has nothing to remove.
+		let created = self.map.read().is_some();
 		drop(self.map);
-		try_io!(std::fs::remove_file(self.path.as_path()));
+		if created {
+			try_io!(std::fs::remove_file(self.path.as_path()));
+		}
 		log::debug!(target: "parity-db", "{}: Dropped ref count table", self.id);
 		Ok(())
 	}
